@@ -3,6 +3,11 @@
 RUNTIME_CORE = ["sends", "recvs", "closes", "makechans", "gostmts", "ctxchecks", "calls", "sendcalls", "el_head", "el_tail", "el_cases",
                 "body_Program_Send", "body_Program_handleCommands"]
 
+# the bodies of the functions that the renderer model / the input model mirror statement by statement
+RENDER_BODIES = ["body_standardRenderer_render", "body_standardRenderer_flush", "body_standardRenderer_write", "body_standardRenderer_repaint", "body_standardRenderer_handleMessages", "body_standardRenderer_stop", "body_standardRenderer_kill", "body_standardRenderer_clearScreen", "body_standardRenderer_enterAltScreen", "body_standardRenderer_exitAltScreen"]
+INPUT_BODIES = ["body_readAnsiInputs", "body_detectOneMsg", "body_detectSequence", "body_detectBracketedPaste", "body_detectReportFocus", "body_isIncompleteEvent"]
+MOUSE_BODIES = ["body_parseSGRMouseEvent", "body_parseX10MouseEvent", "body_parseMouseButton"]
+
 FACTMAP = {
     "C01": RUNTIME_CORE + ["sig_Program_Run"],
     "C02": RUNTIME_CORE + ["el_case_BatchMsg"],        # Batch itself: `cmdfns` stream (behavioural)
@@ -18,7 +23,7 @@ FACTMAP = {
     "C05": ["order_Program_shutdown", "order_Program_restoreTerminalState", "order_Program_Run", "order_Program_initTerminal",
             "order_Program_disableMouse", "order_Program_recoverFromPanic", "calls",
             "body_Program_initInput", "body_Program_restoreInput"],   # the termios model (Tea/Render/Tty.lean)
-    "C07": ["order_Program_Run", "order_Program_shutdown", "order_standardRenderer_stop", "calls", "locks", "body_standardRenderer_halt"],
+    "C07": ["order_Program_Run", "order_Program_shutdown", "order_standardRenderer_stop", "calls", "locks", "body_standardRenderer_halt"] + RENDER_BODIES,
     "C12": ["order_Program_Run", "order_Program_disableMouse", "el_case_enterAltScreenMsg", "el_case_exitAltScreenMsg",
             "el_case_enableMouseCellMotionMsg_enableMouseAllMotionMsg", "el_case_disableMouseMsg", "el_case_showCursorMsg",
             "el_case_hideCursorMsg", "el_case_enableBracketedPasteMsg", "el_case_disableBracketedPasteMsg",
@@ -35,11 +40,13 @@ FACTMAP = {
     "C18": ["body_Program_handleSignals", "body_Program_handleResize", "body_Program_listenForResize", "body_Program_checkResize",
             "body_Program_initInput",   # ttyOutput (whether size reporting exists at all) is decided there
             "el_case_windowSizeMsg", "order_Program_ReleaseTerminal", "order_Program_RestoreTerminal", "order_Program_Run"],
-    "C19": ["body_standardRenderer_write",   # C19_write_silent: a write only fills the buffer
-            "body_WithFPS", "calls", "body_standardRenderer_listen", "body_standardRenderer_start", "body_standardRenderer_halt", "locks"],
+    "C19": RENDER_BODIES + ["body_WithFPS", "calls", "body_standardRenderer_listen", "body_standardRenderer_start", "body_standardRenderer_halt", "locks"],
     "C20": ["body_Every", "body_Tick"],
-    "C09": ["bufsize"],
-    "C15": ["bufsize"],
-    "C14": ["body_Program_Println", "body_Program_Printf", "locks"],   # handleMessages / write / repaint themselves: vt stream (behavioural)
-    "C06": ["locks"],
+    "C08": INPUT_BODIES,
+    "C09": ["bufsize"] + INPUT_BODIES,
+    "C10": INPUT_BODIES,
+    "C11": INPUT_BODIES + MOUSE_BODIES,
+    "C15": ["bufsize"] + INPUT_BODIES,
+    "C14": ["body_Program_Println", "body_Program_Printf", "locks"] + RENDER_BODIES,   # handleMessages / write / repaint themselves: vt stream (behavioural)
+    "C06": ["locks"] + RENDER_BODIES,
 }
